@@ -56,3 +56,4 @@ static inline vr64 vr_ceil64(vr64 a){ (void)a; return VR_OPAQUE; }
 static inline vr64 vr_floor64(vr64 a){ (void)a; return VR_OPAQUE; }
 static inline vr32 vr_sqrt32(vr32 a){ (void)a; return VR_OPAQUE; }
 static inline vr32 vr_fabs32(vr32 a){ (void)a; return VR_OPAQUE; }
+static inline int vr_is_exact_zero(vr64 a){ return a == 0; }
